@@ -7,7 +7,7 @@ object untouched.
 """
 import random
 
-from ..core import Partial, call, exc_name
+from ..core import Partial, call, exc_name, Retained
 from ..oracle import conn as oconn, groups, lcorbit
 from ..oracle.circ import cost_depth, connectivity_violations, fmt as fmt_gates
 from ..oracle.pauli import gates_of, state_of, to_str, UnknownGate
@@ -21,23 +21,30 @@ MIXES = ("uniform", "single", "two", "swapchain", "idpad", "yheavy", "redundant"
 
 
 def RULE(tier):
-    return ("cases = (random circuit over {id,x,y,z,h,s,sdg,cx,cz,swap}, connectivity): %d circuits spread over all 20 "
-            "configurations, lengths %s, gate mixes %s (two-qubit gates on arbitrary, also uncoupled, pairs); non-trivial = "
-            "entangled output state; distinct = distinct (n, connectivity, gate list)" % (4000 if tier == "quick" else 100000, LENGTHS, MIXES))
+    return ("cases = (circuit over {id,x,y,z,h,s,sdg,cx,cz,swap}, connectivity): %d random circuits spread over all 20 "
+            "configurations, lengths %s, gate mixes %s (two-qubit gates on arbitrary, also uncoupled, pairs); plus a circuit "
+            "preparing a random member of every one of the 5,962 (configuration, class) pairs (dressed with redundant pairs) and "
+            "cheap inputs with 1-3 two-qubit gates on uncoupled pairs (GHZ fan-outs, long-range Bell pairs), each also re-requested "
+            "with another Pauli frame; every returned circuit is re-inspected at the end of the task (retention monitor); "
+            "non-trivial = entangled output state; distinct = distinct (n, connectivity, gate list)" % (3200 if tier == "quick" else 100000, LENGTHS, MIXES))
 
 
 def plan(tier, seed):
-    cnt = 4000 if tier == "quick" else 100000
+    cnt = 3200 if tier == "quick" else 100000
     per = cnt // (20 * 4)
     t = []
     for (n, c) in oconn.CONFIGS:
         for i in range(4):
             t.append(("compress", n, c, per, seed * 1000 + i))
+        t.append(("cheap", n, c, 40 if tier == "quick" else 600, seed * 1000 + 7))
+    # class-stratified inputs: a circuit preparing a random member of every (configuration, class) pair
+    for n, reps, k in ((2, 4, 1), (3, 4, 1), (4, 3, 2), (5, 1 if tier == "quick" else 6, 8), (6, 1 if tier == "quick" else 4, 48)):
+        t += [("classes",) + x[1:] for x in wp.member_tasks(n, reps, k, seed)]
     random.Random(seed).shuffle(t)
     return t
 
 
-def run_case(p, n, conn, g, table=None):
+def run_case(p, n, conn, g, table=None, retain=None, stratum="random"):
     from htstabilizer.stabilizer_circuits import compress_preparation_circuit
     from htstabilizer.stabilizer import Stabilizer
     from htstabilizer.lc_classes import determine_lc_class
@@ -56,6 +63,9 @@ def run_case(p, n, conn, g, table=None):
     if gates_of(qc) != before or qc.num_qubits != n or qc.name != "input-circuit" or qc.metadata != {"tag": 7} or out is qc:
         p.violate(key + "input-modified", "the input circuit object was modified (or returned) by compress_preparation_circuit", case)
     og = gates_of(out)
+    if retain is not None:
+        retain.add(out, {"case": dict(case, retention=True), "requested": "input [%s]" % fmt_gates(g)[:120]})
+    p.counters["stratum " + stratum] += 1
     try:
         got = groups.canon(state_of(og, n), n)
     except UnknownGate:
@@ -84,21 +94,46 @@ def run_case(p, n, conn, g, table=None):
 
 
 def work(task):
-    _, n, conn, cnt, seed = task
-    rnd = random.Random("%s-%s-%s" % (n, conn, seed))
+    from .c01 import digest_circuit, retention_verdicts
     p = Partial()
     table = p.extra.setdefault("table", {})
-    for i in range(cnt):
-        L = LENGTHS[i % len(LENGTHS)]
-        if L == 2000 and i % 3:
-            L = 500
-        g = ws.random_gates(n, L, rnd, MIXES[(i // len(LENGTHS)) % len(MIXES)])
-        run_case(p, n, conn, g, table)
-    p.sample({"n": n, "connectivity": conn, "input": fmt_gates(g)[:160], "length": len(g)})
+    retain = Retained(digest_circuit, 500)
+    if task[0] == "classes":
+        rnd = random.Random(repr(task[-2:]))
+        for case in wp.iter_cases(("members",) + task[1:]):
+            n, conn = case["n"], case["conn"]
+            g = list(case["circuit"])
+            # dress the synthesised circuit with redundant pairs so it is not in any normal form
+            for _ in range(rnd.randrange(0, 4)):
+                a, b = rnd.sample(range(n), 2)
+                k = rnd.randrange(len(g) + 1)
+                g[k:k] = [("cx", (a, b)), ("cx", (a, b))] if rnd.getrandbits(1) else [("h", (a,)), ("h", (a,))]
+            run_case(p, n, conn, g, table, retain, "class-stratified")
+            p.extra.setdefault("labels", set()).add((n, conn, case["label"]))
+        p.sample({"n": n, "connectivity": conn, "input": fmt_gates(g)[:160], "stratum": "class-stratified"})
+    else:
+        kind, n, conn, cnt, seed = task
+        rnd = random.Random("%s-%s-%s-%s" % (kind, n, conn, seed))
+        for i in range(cnt):
+            if kind == "cheap":
+                g = ws.cheap_uncoupled(n, rnd)
+                # the same state twice in a row with different Pauli frames (history effects on cached objects)
+                run_case(p, n, conn, g, table, retain, "cheap-uncoupled")
+                g = g + [(rnd.choice(["x", "z", "y"]), (rnd.randrange(n),))]
+                run_case(p, n, conn, g, table, retain, "cheap-uncoupled")
+                continue
+            L = LENGTHS[i % len(LENGTHS)]
+            if L == 2000 and i % 3:
+                L = 500
+            g = ws.random_gates(n, L, rnd, MIXES[(i // len(LENGTHS)) % len(MIXES)])
+            run_case(p, n, conn, g, table, retain)
+        p.sample({"n": n, "connectivity": conn, "input": fmt_gates(g)[:160], "length": len(g), "stratum": kind})
+    retention_verdicts(p, retain, "compress")
     return p
 
 
 def merge_extra(a, b):
+    a.setdefault("labels", set()).update(b.get("labels", set()))
     ta = a.setdefault("table", {})
     for k, slot in b.get("table", {}).items():
         s = ta.setdefault(k, {})
@@ -116,6 +151,11 @@ def finalize(total, tier, seed):
                           "states of one LC class (orbit %d) were compressed to circuits with different two-qubit counts %s" % (lab, costs),
                           slot[costs[-1]])
     total.extra["ev_orbits_seen"] = len(table)
+    want = {(n, c, l) for (n, c) in oconn.CONFIGS for l in set(lcorbit.orbit_table(n))}
+    seen = total.extra.pop("labels", set())
+    total.extra["ev_config_class_pairs_seen"] = len(seen & want)
+    if want - seen and not total.violations:
+        raise Inconclusive("%d (configuration, class) pairs never compressed" % len(want - seen))
     if total.counters["unknown-gate outputs"] > max(1, total.evals // 1000):
         raise Inconclusive("outputs use gates the oracle cannot conjugate")
     if len({k[:2] for k in table}) < 20 and not total.violations:
@@ -123,6 +163,13 @@ def finalize(total, tier, seed):
 
 
 def replay(cj):
+    from .c01 import digest_circuit, retention_verdicts
     p = Partial()
-    run_case(p, cj["n"], cj["conn"], [(nm, tuple(qs)) for nm, qs in cj["gates"]])
+    g = [(nm, tuple(qs)) for nm, qs in cj["gates"]]
+    retain = Retained(digest_circuit, 10)
+    run_case(p, cj["n"], cj["conn"], g, retain=retain)
+    if cj.get("retention"):
+        for pauli in ("x", "z", "y"):
+            run_case(p, cj["n"], cj["conn"], g + [(pauli, (0,))], retain=retain)
+        retention_verdicts(p, retain, "compress")
     return p.violations
